@@ -9,8 +9,8 @@ def run(tier, rep):
     duration.pipeline(tier, rep, calibrate=not selftest)
     if selftest:
         rep.notes.append("VERIF_SELFTEST=1: calibration skipped")
-    # deviations outside the literal property statement (implicit floating-point conversion to a duration that is
-    # not the common type) are recorded as notes, not as violations of C12
+    # (no judgement currently produces a note-... kind: implicit conversions are judged as kind `conv`, all with an exactly
+    # representable result; the filter stays for kinds a later revision may want to report apart)
     notes = [d for d in rep.devs if d["kind"].startswith("note-")]
     rep.devs = [d for d in rep.devs if not d["kind"].startswith("note-")]
     if notes:
@@ -23,7 +23,7 @@ def run(tier, rep):
         "inputs are selected by TLC: the exact result is representable AND the arithmetic the standard prescribes "
         "(duration_cast through common_type<To::rep, Rep, intmax_t>, operators through the common type) has no signed overflow",
         "floating-point results are judged only where they are exact (all intermediates below 2^53, dyadic quotient)",
-        "integer representations are int64_t and int32_t, the floating one is double; counts are integral",
+        "integer representations are int64_t and int32_t, the floating one is double; counts are integral, plus k/2 and k/4 (odd k) for double sources of the casts",
         "the TLA+ reading of std::chrono is calibrated against libstdc++ on the identical inputs (zero deviations required)",
     ]
 
